@@ -61,6 +61,22 @@ func runTunnelResetSession(se session) {
 		}
 	}()
 	defer func() { close(stop); wg.Wait() }()
+	if se.Seed >= 100 {
+		// variant "silent second connection": the forwarder accepts the POST connection of the HTTP
+		// tunnel and then says nothing (over TLS: the handshake never completes); every call must
+		// still return within its timeouts and Close must leave nothing behind
+		px.SetHoldFrom(1)
+		_, okS := call(se, "Start+Describe(silent-post)", pc.Start)
+		_, okC := call(se, "Close", func() error { pc.Close(); return nil })
+		if okS && okC {
+			if left := dials.Unclosed(); len(left) > 0 {
+				emit("V", vio{Key: "leak/socket/client-connection-never-closed", What: fmt.Sprintf("%s tunnel (tls=%v) whose second connection stays silent: Client.Close returned but the client never closed %d of the %d connection(s) it dialed", se.Proto, se.TLS, len(left), dials.Dialed()), Session: se})
+			}
+		}
+		emit("D", fmt.Sprintf("tunnel-silent-post|%s|%v", se.Proto, se.TLS))
+		emit("C", map[string]any{"n": "sessions:tunnel-silent-post/" + se.Proto, "v": 1})
+		return
+	}
 	if err, ok := call(se, "Start+Describe+Setup+Play", pc.Start); !ok || err != nil {
 		return
 	}
